@@ -340,3 +340,14 @@ def rule_commit(ctx):
 
 
 RULES.append(("C07.h", "branch-commit: between the decision to perform an effect and the effect there is no way out", rule_commit))
+
+
+def rule_queue_order(ctx):
+    """Same-key order in the scheduler queue is insertion order (C20.a/b): the comparator breaks ties by epoch, epochs are unique,
+    increasing and not truncated."""
+    from . import c20
+    c20.rule_a(ctx)
+    c20.rule_b(ctx)
+
+
+RULES.append(("C07.i", "the scheduler queue is FIFO among equal keys (C20.a/b)", rule_queue_order))
